@@ -757,3 +757,30 @@ Proof.
     rewrite Forall_forall in Hrows. rewrite (Hrows (nth y a [])); [exact Hx|]. apply nth_In. lia.
   - intros y x Hy Hx Hout. apply (get_embed_out z dy dx NY NX ny nx a y x); assumption.
 Qed.
+
+(* ================================================================== *)
+(* background at the centroid (bilinear interpolation)                  *)
+(* ================================================================== *)
+Lemma bilinear_embed dy dx NY NX ny nx a y x fy fx s :
+  rect ny nx a -> (S y < ny)%nat -> (S x < nx)%nat ->
+  bilinear (embed 0 dy dx NY NX a) (dy + y) (dx + x) fy fx s = bilinear a y x fy fx s.
+Proof.
+  intros [Hl Hr] Hy Hx. unfold bilinear.
+  assert (G : forall j i, (j < ny)%nat -> (i < nx)%nat ->
+            get 0 (embed 0 dy dx NY NX a) (dy + j) (dx + i) = get 0 a j i).
+  { intros j i Hj Hi. apply get_embed_in; [lia|].
+    rewrite Forall_forall in Hr. rewrite (Hr (nth j a [])); [exact Hi|]. apply nth_In. lia. }
+  replace (S (dy + y)) with (dy + S y)%nat by lia. replace (S (dx + x)) with (dx + S x)%nat by lia.
+  rewrite !G by lia. reflexivity.
+Qed.
+
+(* the unrepaired order of coordinates is not covariant: a 2 x 3 ramp, offset (0, 1) *)
+Lemma bilinear_head_not_covariant :
+  exists (a : img Z) (dy dx NY NX y x : nat) (fy fx s : Z),
+    rect 2 3 a /\ (S y < 2)%nat /\ (S x < 3)%nat /\
+    bilinear_head (embed 0 dy dx NY NX a) (dy + y) (dx + x) fy fx s <> bilinear_head a y x fy fx s.
+Proof.
+  exists [[1; 2; 3]; [4; 5; 6]], 0%nat, 1%nat, 2%nat, 4%nat, 0%nat, 1%nat, 0, 0, 1.
+  split; [split; [reflexivity|repeat constructor]|]. split; [lia|]. split; [lia|].
+  vm_compute. discriminate.
+Qed.
